@@ -711,6 +711,35 @@ impl<T: Payload> Ctx<T> {
                 harness_drop(o);
                 out
             }
+            Op::SendNone(k) => {
+                let mut o: Option<T> = None;
+                let r = catch_unwind(AssertUnwindSafe(|| {
+                    if k >= 2 {
+                        return self.s().sync().send_option_timeout(&mut o, d(1)).is_ok();
+                    }
+                    match self.s() {
+                        SH::Sync(s) => {
+                            if k == 0 {
+                                s.try_send_option(&mut o).is_ok()
+                            } else {
+                                s.try_send_option_realtime(&mut o).is_ok()
+                            }
+                        }
+                        SH::Async(s) => {
+                            if k == 0 {
+                                s.try_send_option(&mut o).is_ok()
+                            } else {
+                                s.try_send_option_realtime(&mut o).is_ok()
+                            }
+                        }
+                    }
+                }));
+                Out::r(match r {
+                    Err(_) => Res::Panicked,
+                    Ok(true) => Res::Ok,
+                    Ok(false) => Res::NotDone,
+                })
+            }
             Op::Recv | Op::RecvRepoll => match (self.r().flavour(), op) {
                 (Flavour::Sync, Op::Recv) => match self.r().sync().recv() {
                     Ok(v) => got(v),
